@@ -69,9 +69,11 @@ def in_class(cls, script, recorded):
                     return True
                 depth_open.append("in")
         return False
-    if cls == "cross-sink":
-        # a talkback call `U<k>…` of sink k made while share is delivering to ANOTHER sink (or delivering a terminal message):
-        # legal only by the cross-sink clause of lean/CallbagModel/EnvX.lean
+    if cls in ("cross-peer", "cross-sink"):
+        # some environment call is legal only in the cross-peer environment of lean/CallbagModel/EnvX.lean: a subscription below
+        # top level, a talkback call `U<k>…` outside top level / a delivery of data or the greeting to sink k, a delivery `D<i>…`
+        # or greeting `G<i>` outside top level / the call subscribing source i / a Pull sent to source i
+        import re
         stack = []
         for t in toks:
             if t.startswith(">"):
@@ -79,15 +81,19 @@ def in_class(cls, script, recorded):
             elif t in ("R", "<"):
                 if stack: stack.pop()
             elif t[0] in "SUGD":
-                if t.startswith("U") and stack and stack[-1].startswith(">"):
-                    top = stack[-1]
-                    import re
-                    mk = re.match(r"U(\d+)", t); mo = re.match(r">([GD])(\d+)(.*)", top)
-                    if mk and mo:
-                        same = mk.group(1) == mo.group(2)
-                        data = mo.group(1) == "G" or mo.group(3).startswith("d")
-                        if not (same and data):
-                            return True
+                top = stack[-1] if stack else None
+                if top is not None and top.startswith(">"):
+                    m = re.match(r"([SUGD])(\d+)", t)
+                    mo = re.match(r">([SUGDF])(\d+)(.*)", top)
+                    ok = False
+                    if m and mo:
+                        kind, idx = m.group(1), m.group(2)
+                        if kind == "U":
+                            ok = (mo.group(1) == "G" and mo.group(2) == idx) or (mo.group(1) == "D" and mo.group(2) == idx and mo.group(3).startswith("d"))
+                        elif kind in "GD":
+                            ok = (mo.group(1) == "S" and mo.group(2) == idx) or (mo.group(1) == "U" and mo.group(2) == idx and mo.group(3).startswith("p"))
+                    if not ok:
+                        return True
                 stack.append(t)
         return False
     return False
